@@ -384,6 +384,9 @@ fn meta_of<M: Metadata>(m: &M) -> DecOut {
 
 /// Like `decode_with` but discards the samples (only counts them), so that the memory measured
 /// around the call is the decoder's own and not the accumulated output.
+/// how many more times `drain_with` calls a reader after its first error (results ignored)
+const AFTER_ERROR_CALLS: usize = 2;
+
 pub fn drain_with<R: Read>(r: R, kind: ReaderKind, read_size: usize) -> Result<(u64, Option<String>), String> {
     let rs = read_size.max(1);
     let mut n = 0u64;
@@ -401,6 +404,10 @@ pub fn drain_with<R: Read>(r: R, kind: ReaderKind, read_size: usize) -> Result<(
                             Err(e) if e.kind() == std::io::ErrorKind::Interrupted => continue,
                             Err(e) => {
                                 err = Some(e.to_string());
+                                // a caller may try again after an error: data or another error, never a panic
+                                for _ in 0..AFTER_ERROR_CALLS {
+                                    let _ = rd.read(&mut buf);
+                                }
                                 break;
                             }
                         }
@@ -421,18 +428,27 @@ pub fn drain_with<R: Read>(r: R, kind: ReaderKind, read_size: usize) -> Result<(
                     }
                     Err(e) => {
                         err = Some(e.to_string());
+                        for _ in 0..AFTER_ERROR_CALLS {
+                            if let Ok(b) = rd.fill_buf() {
+                                let m = b.len();
+                                rd.consume(m);
+                            }
+                        }
                         break;
                     }
                 }
             }
         }
         ReaderKind::SampleIter => {
-            let rd = FlacSampleReader::new(r).map_err(|e| e.to_string())?;
-            for s in rd {
+            let mut rd = FlacSampleReader::new(r).map_err(|e| e.to_string())?.into_iter();
+            while let Some(s) = rd.next() {
                 match s {
                     Ok(_) => n += 1,
                     Err(e) => {
                         err = Some(e.to_string());
+                        for _ in 0..AFTER_ERROR_CALLS {
+                            let _ = rd.next();
+                        }
                         break;
                     }
                 }
@@ -445,6 +461,12 @@ pub fn drain_with<R: Read>(r: R, kind: ReaderKind, read_size: usize) -> Result<(
                     Ok(chs) => chs.first().map(|c| c.len()).unwrap_or(0),
                     Err(e) => {
                         err = Some(e.to_string());
+                        for _ in 0..AFTER_ERROR_CALLS {
+                            if let Ok(chs) = rd.fill_buf() {
+                                let m = chs.first().map(|c| c.len()).unwrap_or(0);
+                                rd.consume(m);
+                            }
+                        }
                         break;
                     }
                 };
